@@ -1,1 +1,113 @@
 // harness bodies for h2 src/hpack/huffman/mod.rs (compiled in-crate as `verif_h`, feature "verif")
+use super::*;
+
+include!(concat!(env!("H2_VERIF_DIR"), "/harness/hpack/rfc7541_table.rs"));
+
+/// Reference Huffman string decoder, RFC 7541 §5.2 + Appendix B (frozen table in
+/// /verif, canonical form): walks the input bit by bit.  Errors: EOS symbol inside
+/// the string, padding longer than 7 bits, padding that is not a prefix of EOS.
+/// Output capacity M must be >= ceil(8*n/5).
+pub(crate) fn ref_huff_decode<const M: usize>(src: &[u8]) -> Result<([u8; M], usize), ()> {
+    let mut out = [0u8; M];
+    let mut olen = 0usize;
+    let mut len: usize = 0;
+    let mut val: u32 = 0;
+    let mut i = 0;
+    while i < src.len() {
+        let mut bit = 0;
+        while bit < 8 {
+            val = (val << 1) | (((src[i] >> (7 - bit)) & 1) as u32);
+            len += 1;
+            if len > 30 {
+                return Err(()); // unreachable for a complete code; kept as a guard
+            }
+            let cnt = RFC_COUNT[len];
+            if cnt > 0 && val >= RFC_FIRST[len] && val - RFC_FIRST[len] < cnt {
+                let sym = RFC_SYMS[RFC_OFFS[len] as usize + (val - RFC_FIRST[len]) as usize];
+                if sym == 256 {
+                    return Err(()); // EOS inside the string
+                }
+                out[olen] = sym as u8;
+                olen += 1;
+                len = 0;
+                val = 0;
+            }
+            bit += 1;
+        }
+        i += 1;
+    }
+    // what is left is padding: at most 7 bits, all ones
+    if len > 7 || val != (1u32 << len) - 1 {
+        return Err(());
+    }
+    Ok((out, olen))
+}
+
+/// C11.huff: `huffman::decode` agrees with the reference on every string of N bytes.
+fn huff_vs_reference<const N: usize, const M: usize>() {
+    let src: [u8; N] = kani::any();
+    let mut buf = BytesMut::with_capacity(2 * N + 8);
+    let got = decode(&src, &mut buf);
+    let want = ref_huff_decode::<M>(&src);
+    match (&got, &want) {
+        (Ok(g), Ok((w, wl))) => {
+            assert!(g.len() == *wl, "huffman: decoded length differs from RFC 7541");
+            let mut i = 0;
+            while i < M {
+                if i < *wl {
+                    assert!(g[i] == w[i], "huffman: decoded octet differs from RFC 7541");
+                }
+                i += 1;
+            }
+        }
+        (Ok(_), Err(())) => panic!("huffman: accepted a string RFC 7541 makes a decoding error (EOS / padding)"),
+        (Err(_), Ok(_)) => panic!("huffman: rejected a valid Huffman string"),
+        (Err(e), Err(())) => assert!(*e == DecoderError::InvalidHuffmanCode),
+    }
+    kani::cover!(got.is_ok() && want.is_ok(), "both_ok");
+    kani::cover!(got.is_err(), "rejected");
+    kani::cover!(true, "end");
+    std::mem::forget(got);
+    std::mem::forget(buf);
+}
+pub fn c11_huff_len0() { huff_vs_reference::<0, 1>() }
+pub fn c11_huff_len1() { huff_vs_reference::<1, 2>() }
+pub fn c11_huff_len2() { huff_vs_reference::<2, 4>() }
+pub fn c11_huff_len3() { huff_vs_reference::<3, 5>() }
+pub fn c11_huff_len4() { huff_vs_reference::<4, 7>() }
+
+/// C11.table: for every octet b whose code needs NB bytes, `encode([b])` is the RFC
+/// code of b padded with ones (ties ENCODE_TABLE to the frozen RFC table) and
+/// `decode(encode([b])) = [b]` (ties DECODE_TABLE to it).  NB = 1..=4 covers all octets.
+fn symbol_roundtrip<const NB: usize>() {
+    let b: u8 = kani::any();
+    let (nbits, code) = RFC_CODE[b as usize];
+    kani::assume((nbits as usize + 7) / 8 == NB);
+    let mut enc = BytesMut::with_capacity(16);
+    encode(&[b], &mut enc);
+    assert!(enc.len() == NB, "huffman::encode: wrong encoded length");
+    // expected bytes: code left-aligned, padded with ones
+    let total = NB * 8;
+    let padded: u64 = ((code as u64) << (total - nbits as usize)) | ((1u64 << (total - nbits as usize)) - 1);
+    let mut src = [0u8; NB];
+    let mut i = 0;
+    while i < NB {
+        assert!(enc[i] == (padded >> (8 * (NB - 1 - i))) as u8, "huffman::encode: wrong code bits");
+        src[i] = enc[i];
+        i += 1;
+    }
+    let mut buf = BytesMut::with_capacity(16);
+    let out = decode(&src, &mut buf);
+    match &out {
+        Ok(o) => assert!(o.len() == 1 && o[0] == b, "decode(encode([b])) != [b]"),
+        Err(_) => panic!("decode rejected encode([b])"),
+    }
+    kani::cover!(true, "end");
+    std::mem::forget(out);
+    std::mem::forget(buf);
+    std::mem::forget(enc);
+}
+pub fn c11_table_sym1() { symbol_roundtrip::<1>() }
+pub fn c11_table_sym2() { symbol_roundtrip::<2>() }
+pub fn c11_table_sym3() { symbol_roundtrip::<3>() }
+pub fn c11_table_sym4() { symbol_roundtrip::<4>() }
